@@ -661,7 +661,10 @@ def store_filtered_feature(rtdc_writer, feat, data, filtarr):
             for trstack in yield_filtered_array_stacks(data[tr], indices):
                 hw.store_feature("trace", {tr: trstack})
     elif dfn.scalar_feature_exists(feat):
-        hw.store_feature(feat, data[filtarr])
+        # Use the indices instead of the boolean array, because the
+        # feature may contain fewer events than the dataset (in which
+        # case `filtarr` is False for all surplus events).
+        hw.store_feature(feat, data[indices])
     else:
         # Special case of plugin or temporary features.
         shape = data[0].shape
